@@ -53,6 +53,7 @@ class Heap:
         self.dh0: dict[str, Any] = {}
         self.dv0: dict[str, Any] = {}
         self.alloc0 = z3.Int("alloc0")
+        self.alloc_base = self.alloc0     # current base (advanced past callee allocations)
         self.nalloc = 0
 
     def clone(self):
@@ -60,12 +61,16 @@ class Heap:
         h.f, h.f0, h.has = dict(self.f), self.f0, dict(self.has)
         h.lists, h.lists0 = dict(self.lists), self.lists0
         h.dh, h.dv, h.dh0, h.dv0 = dict(self.dh), dict(self.dv), self.dh0, self.dv0
-        h.alloc0, h.nalloc = self.alloc0, self.nalloc
+        h.alloc0, h.nalloc, h.alloc_base = self.alloc0, self.nalloc, self.alloc_base
         return h
 
     def new_id(self):
         self.nalloc += 1
-        return self.alloc0 + self.nalloc
+        return self.alloc_base + self.nalloc
+
+    def alloc_now(self):
+        """every id allocated so far is <= this term"""
+        return self.alloc_base + self.nalloc
 
     # ---- lists
     def _lmap(self, kind):
@@ -243,6 +248,41 @@ class Engine:
         s.add(z3.Not(cond))
         return s.check() == z3.unsat
 
+    def truth(self, path, v):
+        if isinstance(v, SList):
+            return z3.Length(path.heap.list_get(v)) > 0
+        if isinstance(v, SDict):
+            raise EngineError("truthiness of a dict")
+        return as_bool(v)
+
+    def callee_effects(self, path, fields=(), keep=None, ground=(), allocates=True, keep_lists=True, list_kinds=("ref",)):
+        """apply the frame of a callee contract: havoc `fields` except on objects satisfying keep(o) (instantiated on `ground`
+        terms and as a pattern-guarded quantifier); advance the allocation base; existing containers keep their contents."""
+        h = path.heap
+        o = z3.Int("o!frame")
+        for f in fields:
+            old = self.field_array(path, f)
+            new = fresh(f"H_{f}", old.sort())
+            if keep is not None:
+                path.assume(z3.ForAll([o], z3.Implies(keep(o), z3.Select(new, o) == z3.Select(old, o)), patterns=[z3.Select(new, o)]))
+                for g in ground:
+                    path.assume(z3.Implies(keep(g), z3.Select(new, g) == z3.Select(old, g)))
+            h.f[f] = new
+        if allocates:
+            before = h.alloc_now()
+            nb = fresh("alloc", z3.IntSort())
+            path.assume(nb >= before)
+            h.alloc_base, h.nalloc = nb, 0
+            if keep_lists:
+                i = z3.Int("i!frame")
+                for k in list(h.lists):
+                    if k not in list_kinds:
+                        continue
+                    old = h.lists[k]
+                    new = fresh(f"LC_{k}", old.sort())
+                    path.assume(z3.ForAll([i], z3.Implies(i <= before, z3.Select(new, i) == z3.Select(old, i)), patterns=[z3.Select(new, i)]))
+                    h.lists[k] = new
+
     # ------------------------------------------------------------------ coercions
     def to_char_code(self, path, v):
         if isinstance(v, SChar):
@@ -413,6 +453,45 @@ class Engine:
         path.heap.dict_set(d, z3.K(ks, z3.BoolVal(False)), fresh("dv0", z3.ArraySort(ks, vs)))
         return d
 
+    def ev_ListComp(self, path, e):
+        """[elt for x in it if cond]  ==  tmp = []; for x in it: if cond: tmp.append(elt)   (one generator, pure cond/elt).
+        The synthetic loop takes its invariant from the contract like any other loop (ordinal in execution order)."""
+        if len(e.generators) != 1 or e.generators[0].is_async:
+            raise EngineError("comprehension with several generators")
+        g = e.generators[0]
+        key = id(e)
+        if not hasattr(self, "_lc_cache"):
+            self._lc_cache = {}
+        if key not in self._lc_cache:
+            name = f"_lc{len(self._lc_cache)}"
+            app = ast.Expr(ast.Call(ast.Attribute(ast.Name(name, ast.Load()), "append", ast.Load()), [e.elt], []))
+            body = [app]
+            for c in reversed(g.ifs):
+                body = [ast.If(c, body, [])]
+            loop = ast.For(g.target, g.iter, body, [], None)
+            for n in [loop] + body + [app]:
+                ast.copy_location(n, e)
+            ast.fix_missing_locations(loop)
+            for n in ast.walk(loop):
+                if id(n) not in self.ordinal:
+                    self.ordinal[id(n)] = f"lc{len(self._lc_cache)}.{type(n).__name__.lower()}"
+            self._lc_cache[key] = (name, loop)
+        name, loop = self._lc_cache[key]
+        itv = self.ev(path, g.iter) if not (isinstance(g.iter, ast.Call)) else None
+        elem, base = None, None
+        if isinstance(itv, SList) and isinstance(e.elt, ast.Name) and isinstance(g.target, ast.Name) and e.elt.id == g.target.id:
+            elem, base = itv.elem, itv.base
+        else:
+            elem = self.c.hints.get(("listcomp", name)) or self.c.hints.get("listcomp")
+        path.env[name] = self.new_list(path, [], e, elem=elem, base=base)
+        outs = self.loop(loop, path, "for")
+        normal = [o for o in outs if o.kind == "normal"]
+        if len(normal) != 1 or len(outs) != 1:
+            raise EngineError("comprehension whose body can raise/branch out")
+        o = normal[0]
+        path.env, path.pc, path.heap, path.trace = o.path.env, o.path.pc, o.path.heap, o.path.trace
+        return path.env.pop(name)
+
     def ev_NamedExpr(self, path, e):
         v = self.ev(path, e.value)
         path.env[e.target.id] = v
@@ -421,7 +500,7 @@ class Engine:
     def ev_UnaryOp(self, path, e):
         v = self.ev(path, e.operand)
         if isinstance(e.op, ast.Not):
-            return SBool(z3.Not(as_bool(v)))
+            return SBool(z3.Not(self.truth(path, v)))
         if isinstance(e.op, ast.USub) and isinstance(v, SInt):
             return SInt(-v.t)
         raise EngineError("unary op")
@@ -434,7 +513,7 @@ class Engine:
         for sub in e.values:
             v = self.ev(path, sub)
             vals.append(v)
-            b = as_bool(v)
+            b = self.truth(path, v)
             terms.append(b)
             path.pc.append(b if isinstance(e.op, ast.And) else z3.Not(b))
         del path.pc[saved:]
@@ -445,7 +524,7 @@ class Engine:
             return SBool(t)
 
     def ev_IfExp(self, path, e):
-        c = as_bool(self.ev(path, e.test))
+        c = self.truth(path, self.ev(path, e.test))
         saved = len(path.pc)
         path.pc.append(c)
         a = self.ev(path, e.body)
@@ -774,7 +853,7 @@ class Engine:
         if k == "int":
             return self._int(v)
         if k == "bool":
-            return as_bool(v)
+            return self.truth(path, v)
         if k == "str":
             if isinstance(v, SNone):
                 raise EngineError("None stored into str field")
@@ -859,7 +938,7 @@ class Engine:
         return SNone()
 
     def bi_bool(self, path, e):
-        return SBool(as_bool(self.ev(path, e.args[0])))
+        return SBool(self.truth(path, self.ev(path, e.args[0])))
 
     def bi_isinstance(self, path, e):
         v = self.ev(path, e.args[0])
@@ -1217,7 +1296,7 @@ class Engine:
 
     def st_If(self, st, path):
         cv = self.ev(path, st.test)
-        c = z3.simplify(as_bool(cv))
+        c = z3.simplify(self.truth(path, cv))
         outs = []
         tf = self.feasible(path, c)
         ff = self.feasible(path, z3.Not(c))
@@ -1341,7 +1420,7 @@ class Engine:
         # 4. guard
         outs = []
         if kind == "while":
-            g = z3.simplify(as_bool(self.ev(head, st.test)))
+            g = z3.simplify(self.truth(head, self.ev(head, st.test)))
         else:
             g = head.env[kname].t < it.length(head)
         # exit path
